@@ -29,6 +29,7 @@ def build_mbox(seed: int, feature: str | None = None, twin: bool = False):
     blank_between = rng.choice([1, 1, 2])
     final_blank = rng.random() < 0.7
     out = []
+    shape_rng = random.Random(f"mbox-shapes:{seed}")
     for m in range(n):
         sender = f"user{m}@example.org"
         day = rng.randint(1, 28)
@@ -37,6 +38,25 @@ def build_mbox(seed: int, feature: str | None = None, twin: bool = False):
         hdr = [f"From: Sender {m} <{sender}>", f"To: rcpt{m}@example.org", f"Subject: {exp.ignore(tk.new('t'))} message {m}",
                f"Date: {_DAYS[(day + m) % 7]}, {day:02d} Jan 2024 0{m}:00:00 +0000", f"Message-ID: <{exp.ignore(tk.new('t'))}@example.org>",
                "MIME-Version: 1.0", "Content-Type: text/plain; charset=us-ascii", "Content-Transfer-Encoding: 7bit"]
+        shape = shape_rng.choice(["plain"] * 6 + ["alt-blank-plain", "alt-blank-plain", "html-only", "alt-both"])
+        if shape != "plain":
+            # the message's text is its HTML part: alone, or with the obligatory text/plain twin that HTML mailers fill with a blank,
+            # a no-break space or nothing; with a real plain twin the plain part is the body and the HTML copy is not claimed
+            paras = [[exp.text(tk.new("b"), m) for _ in range(shape_rng.randint(1, 3))] for _ in range(shape_rng.randint(1, 3))]
+            html = "<html><body>" + "".join("<p>" + " ".join(p) + "</p>" for p in paras) + "</body></html>"
+            if shape == "alt-both":
+                html = "<html><body><p>" + exp.ignore(tk.new("u")) + "</p></body></html>"
+            bnd = f"=_alt{m}"
+            plain_twin = shape_rng.choice([" ", "\u00a0", "", "\t", "  " + eol + " "]) if shape == "alt-blank-plain" else " ".join(t for p in paras for t in p)
+            if shape == "html-only":
+                hdr = hdr[:-2] + ["Content-Type: text/html; charset=utf-8", "Content-Transfer-Encoding: 8bit"]
+                body = [html]
+            else:
+                hdr = hdr[:-2] + [f'Content-Type: multipart/alternative; boundary="{bnd}"']
+                body = [f"--{bnd}", "Content-Type: text/plain; charset=utf-8", "Content-Transfer-Encoding: 8bit", "", plain_twin,
+                        f"--{bnd}", "Content-Type: text/html; charset=utf-8", "Content-Transfer-Encoding: 8bit", "", html, f"--{bnd}--"]
+            out.append(eol.join([sep] + hdr + [""] + body) + eol)
+            continue
         body = []
         for _ in range(rng.randint(1, 5)):
             line = " ".join(exp.text(tk.new("b"), m) for _ in range(rng.randint(1, 4)))
@@ -50,7 +70,7 @@ def build_mbox(seed: int, feature: str | None = None, twin: bool = False):
     data = (eol * blank_between).join(out)
     if final_blank:
         data += eol
-    return data.encode("ascii"), exp
+    return data.encode("utf-8"), exp
 
 
 BUILDERS = {"mbox": (build_mbox, MBOX_FEATURES, "mbox", ".mbox")}
